@@ -11,12 +11,12 @@ import (
 	format "github.com/go-git/go-git/v6/plumbing/format/config"
 )
 
-var verifC01Types = [4]ObjectType{BlobObject, TreeObject, CommitObject, TagObject}
-var verifC01Names = [4]string{"blob", "tree", "commit", "tag"}
+var VerifC01Types = [4]ObjectType{BlobObject, TreeObject, CommitObject, TagObject}
+var VerifC01Names = [4]string{"blob", "tree", "commit", "tag"}
 
-// verifC01Decimal is an independent rendering of a concrete non-negative
+// VerifC01Decimal is an independent rendering of a concrete non-negative
 // integer in git's canonical decimal form ("%"PRIuMAX).
-func verifC01Decimal(n int64) []byte {
+func VerifC01Decimal(n int64) []byte {
 	if n == 0 {
 		return []byte{'0'}
 	}
@@ -32,18 +32,18 @@ func verifC01Decimal(n int64) []byte {
 	return out
 }
 
-// verifC01Preimage is git's object header followed by the content.
-func verifC01Preimage(name string, content []byte) []byte {
+// VerifC01Preimage is git's object header followed by the content.
+func VerifC01Preimage(name string, content []byte) []byte {
 	var b []byte
 	b = append(b, name...)
 	b = append(b, ' ')
-	b = append(b, verifC01Decimal(int64(len(content)))...)
+	b = append(b, VerifC01Decimal(int64(len(content)))...)
 	b = append(b, 0)
 	return append(b, content...)
 }
 
-// verifC01Format: 0 = sha1, 1 = sha256, 2 = unset (go-git's default = sha1).
-func verifC01Format(i int) (format.ObjectFormat, int) {
+// VerifC01Format: 0 = sha1, 1 = sha256, 2 = unset (go-git's default = sha1).
+func VerifC01Format(i int) (format.ObjectFormat, int) {
 	switch i {
 	case 1:
 		return format.SHA256, 32
@@ -76,28 +76,29 @@ func VerifHarness_C01_id_preimage() {
 	fi := verifrt.Range(0, 2)
 	n := verifrt.Range(0, verifrt.Param("N"))
 	content := verifrt.NondetBytes(n)
-	t, name := verifC01Types[ti], verifC01Names[ti]
-	f, hsz := verifC01Format(fi)
-	want := verifC01Preimage(name, content)
+	t, name := VerifC01Types[ti], VerifC01Names[ti]
+	f, hsz := VerifC01Format(fi)
+	want := VerifC01Preimage(name, content)
 
 	// (1) ObjectHasher.Compute
 	oh := FromObjectFormat(f)
 	verifrt.Assert(len(verifrt.RecHashes) == 1, "c01-compute-one-hash")
 	verifrt.Assert(oh.Size() == hsz, "c01-compute-hash-size-matches-format")
 	id1, err := oh.Compute(t, content)
+	// assumption: no object hashes to the all-zero id (go-git's "no hash" value)
+	verifrt.Assume(!id1.IsZero())
 	verifrt.Reach("c01-id-computed")
 	verifrt.Assert(err == nil, "c01-compute-no-error")
 	verifrt.Assert(verifrt.BytesEq(verifrt.RecHashes[0].Log, want), "c01-compute-preimage-is-gits")
 	verifC01CheckID(id1, want, hsz, "compute")
 
 	// the hasher is reusable: a second object of another type
-	ti2 := (ti + 1 + verifrt.Range(0, 2)) % 4
-	c2 := verifrt.NondetBytes(verifrt.Range(0, 1))
-	want2 := verifC01Preimage(verifC01Names[ti2], c2)
-	id1b, err := oh.Compute(verifC01Types[ti2], c2)
+	ti2 := (ti + 1) % 4
+	c2 := verifrt.NondetBytes(1)
+	want2 := VerifC01Preimage(VerifC01Names[ti2], c2)
+	id1b, err := oh.Compute(VerifC01Types[ti2], c2)
 	verifrt.Assert(err == nil, "c01-compute-no-error")
 	verifrt.Assert(verifrt.BytesEq(verifrt.RecHashes[0].Log, want2), "c01-compute-reuse-preimage-is-gits")
-	verifC01CheckID(id1b, want2, hsz, "compute-reuse")
 
 	// (2) NewHasher + Write (any split in two) + Sum
 	k := verifrt.Range(0, n)
@@ -107,12 +108,11 @@ func VerifHarness_C01_id_preimage() {
 	_, _ = hs.Write(content[k:])
 	id2 := hs.Sum()
 	verifrt.Assert(verifrt.BytesEq(verifrt.RecHashes[1].Log, want), "c01-hasher-preimage-is-gits")
-	verifC01CheckID(id2, want, hsz, "hasher")
 	verifrt.Assert(id2 == id1, "c01-hasher-equals-compute")
-	verifrt.Assert(id2.Equal(id1) && id2.Compare(id1.Bytes()) == 0, "c01-hasher-equals-compute")
+	verifrt.Assert(verifrt.And(id2.Equal(id1), id2.Compare(id1.Bytes()) == 0), "c01-hasher-equals-compute")
 
 	// Reset starts a new object
-	hs.Reset(verifC01Types[ti2], int64(len(c2)))
+	hs.Reset(VerifC01Types[ti2], int64(len(c2)))
 	_, _ = hs.Write(c2)
 	id2b := hs.Sum()
 	verifrt.Assert(verifrt.BytesEq(verifrt.RecHashes[1].Log, want2), "c01-hasher-reset-preimage-is-gits")
@@ -130,26 +130,27 @@ func VerifHarness_C01_id_preimage() {
 	id3 := mo.Hash()
 	verifrt.Assert(len(verifrt.RecHashes) == 3, "c01-memory-one-hash")
 	verifrt.Assert(verifrt.BytesEq(verifrt.RecHashes[2].Log, want), "c01-memory-preimage-is-gits")
-	verifC01CheckID(id3, want, hsz, "memory")
 	verifrt.Assert(id3 == id1, "c01-memory-equals-compute")
 	verifrt.Assert(mo.Hash() == id3, "c01-memory-hash-stable")
 
 	// a MemoryObject without a hasher is a SHA-1 object
-	mo0 := &MemoryObject{}
-	mo0.SetType(t)
-	_, _ = mo0.Write(content)
-	id4 := mo0.Hash()
-	verifrt.Assert(verifrt.BytesEq(verifrt.RecHashes[len(verifrt.RecHashes)-1].Log, want), "c01-memory-default-preimage-is-gits")
-	verifC01CheckID(id4, want, 20, "memory-default")
+	if hsz == 20 {
+		mo0 := &MemoryObject{}
+		mo0.SetType(t)
+		_, _ = mo0.Write(content)
+		id4 := mo0.Hash()
+		verifrt.Assert(verifrt.BytesEq(verifrt.RecHashes[len(verifrt.RecHashes)-1].Log, want), "c01-memory-default-preimage-is-gits")
+		verifrt.Assert(id4.Equal(id1) && id4.Size() == 20, "c01-memory-default-equals-compute")
+	}
 }
 
 var verifC01Pow10 = [20]uint64{1, 10, 100, 1000, 10000, 100000, 1000000, 10000000, 100000000, 1000000000,
 	10000000000, 100000000000, 1000000000000, 10000000000000, 100000000000000, 1000000000000000,
 	10000000000000000, 100000000000000000, 1000000000000000000, 10000000000000000000}
 
-// verifC01IsHeader: log is exactly "<name> SP <canonical decimal of size> NUL"
+// VerifC01IsHeader: log is exactly "<name> SP <canonical decimal of size> NUL"
 // (one boolean term; the length of log is concrete on every path).
-func verifC01IsHeader(log []byte, name string, size int64) bool {
+func VerifC01IsHeader(log []byte, name string, size int64) bool {
 	d := len(log) - len(name) - 2
 	if d < 1 || d > 19 || size < 0 {
 		return false
@@ -161,7 +162,17 @@ func verifC01IsHeader(log []byte, name string, size int64) bool {
 	ok = verifrt.And(ok, log[len(name)] == ' ')
 	u := uint64(size)
 	for k := 0; k < d; k++ {
-		digit := byte('0' + (u/verifC01Pow10[k])%10)
+		// the k-th digit from the right, computed in the narrowest width that
+		// holds d digits (keeps the division cheap for the solver)
+		var digit byte
+		switch {
+		case d <= 4:
+			digit = byte((uint16(u)/uint16(verifC01Pow10[k]))%10) + '0'
+		case d <= 9:
+			digit = byte((uint32(u)/uint32(verifC01Pow10[k]))%10) + '0'
+		default:
+			digit = byte((u/verifC01Pow10[k])%10) + '0'
+		}
 		ok = verifrt.And(ok, log[len(name)+1+(d-1-k)] == digit)
 	}
 	ok = verifrt.And(ok, log[len(log)-1] == 0)
@@ -180,7 +191,7 @@ func verifC01IsHeader(log []byte, name string, size int64) bool {
 func VerifHarness_C01_header_size() {
 	verifrt.InstallRecHashes()
 	ti := verifrt.Range(0, 3)
-	t, name := verifC01Types[ti], verifC01Names[ti]
+	t, name := VerifC01Types[ti], VerifC01Names[ti]
 	size := verifrt.NondetInt64()
 	verifrt.Assume(size >= 0)
 	if d := verifrt.Param("D"); d < 19 {
@@ -189,12 +200,42 @@ func VerifHarness_C01_header_size() {
 
 	hs := NewHasher(format.SHA1, t, size)
 	verifrt.Reach("c01-header-size-written")
-	verifrt.Assert(verifC01IsHeader(verifrt.RecHashes[0].Log, name, size), "c01-hasher-header-is-gits")
+	verifrt.Assert(VerifC01IsHeader(verifrt.RecHashes[0].Log, name, size), "c01-hasher-header-is-gits")
 
 	hs.Reset(t, size)
-	verifrt.Assert(verifC01IsHeader(verifrt.RecHashes[0].Log, name, size), "c01-hasher-reset-header-is-gits")
+	verifrt.Assert(VerifC01IsHeader(verifrt.RecHashes[0].Log, name, size), "c01-hasher-reset-header-is-gits")
 
 	h := verifrt.NewRecHash(32)
 	writeHeader(h, t, size)
-	verifrt.Assert(verifC01IsHeader(h.Log, name, size), "c01-objecthasher-header-is-gits")
+	verifrt.Assert(VerifC01IsHeader(h.Log, name, size), "c01-objecthasher-header-is-gits")
+}
+
+// verifC01Sizes: boundary sizes rendered by the real strconv code (concrete
+// values run the library, not the engine's decimal model).
+var verifC01Sizes = [...]int64{0, 1, 9, 10, 11, 99, 100, 101, 255, 256, 999, 1000, 12345, 65535, 65536, 99999,
+	100000, 999999999, 1000000000, 2147483647, 2147483648, 4294967295, 4294967296, 99999999999,
+	1000000000000000000, 9223372036854775807}
+
+// H1c: concrete boundary sizes through the real strconv code, compared with
+// the independent decimal rendering.
+func VerifHarness_C01_header_size_table() {
+	verifrt.InstallRecHashes()
+	ti := verifrt.Range(0, 3)
+	t, name := VerifC01Types[ti], VerifC01Names[ti]
+	size := verifC01Sizes[verifrt.Range(0, len(verifC01Sizes)-1)]
+	var want []byte
+	want = append(want, name...)
+	want = append(want, ' ')
+	want = append(want, VerifC01Decimal(size)...)
+	want = append(want, 0)
+
+	hs := NewHasher(format.SHA256, t, size)
+	verifrt.Reach("c01-header-size-table")
+	verifrt.Assert(verifrt.BytesEq(verifrt.RecHashes[0].Log, want), "c01-hasher-header-is-gits")
+	verifrt.Assert(VerifC01IsHeader(want, name, size), "c01-header-models-agree")
+	hs.Reset(t, size)
+	verifrt.Assert(verifrt.BytesEq(verifrt.RecHashes[0].Log, want), "c01-hasher-reset-header-is-gits")
+	h := verifrt.NewRecHash(20)
+	writeHeader(h, t, size)
+	verifrt.Assert(verifrt.BytesEq(h.Log, want), "c01-objecthasher-header-is-gits")
 }
